@@ -1,4 +1,5 @@
 """C19 spectral estimates are the DFT of the epoch's samples and conserve power (partial: the FFT itself is an oracle)."""
+import itertools
 import random
 import warnings
 from fractions import Fraction
@@ -20,10 +21,14 @@ TRUSTED = ["model: coq/Model/Spectrum.v (fftfreq_idx, sort_k/fft_table, nonneg, 
            "psd_k fs n/|X_k|^2 snapped to {1,2}, inverse transform rounded to the integer samples, sum psd * fs rounded to the integer sum of squares)"]
 ASSUMPTIONS = ["sampling rate fs > 0 (frequencies k*fs/n order like k). The one-sided doubling theorems are unconditional on the repaired tree (mask index > 0); the pre-repair guard "
                "fs/2 - 1e-6 is kept in the model only as history (mask_orig, C19_mask_orig_low_rate_refuted); the low-rate inputs (fs/(2n) <= 1e-6) stay in the generator as positive cases",
-               "for even n the one-sided forms DROP the Nyquist bin (np.fft.fftfreq puts it at -fs/2): one-sided total = full total - Nyquist term (theorem C19_onesided_sum_even); "
-               "the property only states which bins are doubled, so this is recorded and not reported",
+               "for even n the one-sided forms DROP the Nyquist bin (np.fft.fftfreq puts it at -fs/2; documented in the docstrings' Notes): one-sided total = full total - Nyquist term "
+               "(theorem C19_onesided_sum_even), e.g. the one-sided PSD of [1,-1,1,-1] is identically 0. The property only states which bins are doubled, not which rows the one-sided form lists, "
+               "so this is recorded (count even_n_onesided_drops_nyquist) and not reported; the oracle accepts BOTH conventions: rows k = 0..ceil(n/2)-1, optionally followed by the Nyquist row at +fs/2, "
+               "which must then be present undoubled (count onesided_keeps_nyquist_row; the model comparison is skipped for such a result)",
                "_overlap_split is modelled on ticks with the step st = (1-overlap)*interval_size a whole number of ticks (a rational overlap a/b is the same model on times scaled by b); "
-               "exhaustive cases live on the dyadic lattice 2^-9 s where the kernel's float accumulation is exact; on decimal lattices a segment end equal to the epoch end is float_ambiguous",
+               "exhaustive cases live on the dyadic lattice 2^-9 s where the kernel's float accumulation is exact; on decimal lattices (kernel and public mean PSD) a segment end exactly equal to the epoch end is "
+               "float_ambiguous: the result must then be the estimate with or without that last segment; everything else is judged exactly there too (get_slice rounds its bounds to the nanosecond)",
+               "when no estimate exists (no segment fits strictly inside an epoch / a segment without samples) any exception is accepted; its type is recorded (mean:no_estimate_raised=...)",
                "segments with unequal sample counts (irregular sampling) are truncated to the first N = min count samples by the implementation; the statement speaks of equal-length "
                "segments, so such cases are checked as correspondence (model vs implementation) only"]
 
@@ -94,19 +99,21 @@ def oracle_psd(ts, vs, s, e, n, fs, full):
     return out, y, X
 
 
-def oracle_segments(ep, L, st):
+def oracle_segments(ep, L, st, closed=()):
+    """closed = indices of the epochs in which a segment ending exactly on the epoch end is kept (only used on decimal lattices, where
+    `t + interval_size < end` is decided by float rounding when both sides are equal in exact arithmetic)"""
     segs = []
-    for s, e in ep:
+    for k, (s, e) in enumerate(ep):
         j = 0
-        while s + j * st + L < e:
+        while s + j * st + L < e or (k in closed and s + j * st + L == e):
             segs.append((s + j * st, s + j * st + L))
             j += 1
     return segs
 
 
-def oracle_mean_psd(ts, vs, ep, L, st, fs, full):
+def oracle_mean_psd(ts, vs, ep, L, st, fs, full, closed=()):
     """None = no estimate exists (no segment fits strictly inside an epoch, or a segment without samples)"""
-    segs = oracle_segments(ep, L, st)
+    segs = oracle_segments(ep, L, st, closed)
     if not segs:
         return None
     chunks = [[v for t, v in zip(ts, vs) if a <= t <= b] for a, b in segs]
@@ -124,7 +131,7 @@ def oracle_mean_psd(ts, vs, ep, L, st, fs, full):
         if full or k >= 0:
             mult = 1 if full else (2 if (k > 0 and 2 * k != N) else 1)
             rows.append((k, ff[r], mult * acc[k % N]))
-    return {"rows": rows, "N": N, "segs": segs, "uniform": len(set(len(c) for c in chunks)) == 1,
+    return {"rows": rows, "N": N, "segs": segs, "nyquist": acc[N // 2], "uniform": len(set(len(c) for c in chunks)) == 1,
             "slices": [(sum(1 for t in ts if t < a), sum(1 for t in ts if t <= b)) for a, b in segs]}
 
 
@@ -199,6 +206,13 @@ def check_single(nap, c, mout, res=None):
         key = {"op": "compute_fft", "full_range": full, "norm": norm}
         if ci == 0 and (y != m_cp or sum(v * v for v in y) != m_ss):
             D.append({"op": "crop_pad model vs statement", "input": inp, "model": m_cp, "expected": y})
+        nyq = (not full) and n1 % 2 == 0 and len(out) == len(rows) + 1
+        if nyq:
+            # the statement does not say whether the one-sided form keeps the Nyquist bin of an even n (np.fft.fftfreq files it under -fs/2):
+            # a result that lists it at +fs/2 is judged with that row included
+            rows = rows + [(n1 // 2, fs_eff / 2, X[n1 // 2] / (n1 if norm else 1))]
+            if res is not None:
+                res.count("onesided_keeps_nyquist_row")
         if len(out) != len(rows):
             V.append({"key": dict(key, part="rows"), "what": "compute_fft returns %d rows, the DFT of the epoch's samples has %d in this range" % (len(out), len(rows)),
                       "input": inp, "impl": len(out), "expected": len(rows)})
@@ -209,7 +223,7 @@ def check_single(nap, c, mout, res=None):
             V.append({"key": dict(key, part="index"), "what": "frequencies are not the sorted np.fft.fftfreq(n, 1/fs)", "input": inp,
                       "impl": fi.tolist(), "expected": [r[1] for r in rows]})
             continue
-        if ks != pos_k:
+        if ks != pos_k and not nyq:
             D.append({"op": "compute_fft keys vs model fft_positions", "input": inp, "impl": ks, "model": pos_k})
         vals = np.asarray(out.values[:, ci], complex)
         sc = float(np.max(np.abs(X))) / (n1 if norm else 1)
@@ -243,6 +257,9 @@ def check_single(nap, c, mout, res=None):
             rows, y, X = oracle_psd(ts, col, s, e, n, fs_eff, full)
             n1 = len(y)
             key = {"op": "compute_power_spectral_density", "full_range": full, "regime": "fs/(2n)<=1e-6" if fs_eff / (2 * n1) <= 1.0000001e-6 else "fs/(2n)>1e-6"}
+            nyq = (not full) and n1 % 2 == 0 and len(out) == len(rows) + 1
+            if nyq:     # one-sided form that keeps the Nyquist bin (at +fs/2): it must NOT be doubled
+                rows = rows + [(n1 // 2, fs_eff / 2, 1, abs(X[n1 // 2]) ** 2 / (fs_eff * n1))]
             if len(out) != len(rows):
                 V.append({"key": dict(key, part="rows"), "what": "PSD returns %d rows, expected %d" % (len(out), len(rows)), "input": inp, "impl": len(out), "expected": len(rows)})
                 continue
@@ -270,7 +287,7 @@ def check_single(nap, c, mout, res=None):
                 V.append({"key": dict(key, part="scale/doubling"), "what": "psd_k*fs*n/|X_k|^2 is not 1 (2 exactly on the strictly positive non-Nyquist frequencies of the one-sided form)",
                           "input": inp, "impl": mults, "expected": exp_m})
                 continue
-            if mm is not None:
+            if mm is not None and not nyq:
                 m_k, m_m = [int(q) for q in mm[0].split()], [int(q) for q in mm[1].split()]
                 if m_k != ks or any(m is not None and m != x_ for m, x_ in zip(mults, m_m)):
                     D.append({"op": "PSD multipliers vs model psd_mults", "input": inp, "impl": mults, "model": list(zip(m_k, m_m))})
@@ -289,11 +306,11 @@ def check_single(nap, c, mout, res=None):
                         D.append({"op": "total power vs model sum of squares", "input": inp, "impl": q, "model": m_ss})
             else:
                 # theorem C19_onesided_sum_odd / _even (recorded behaviour, checked as correspondence)
-                want = ms - ((P[n1 // 2] / (fs_eff * n1)) * fs_eff / n1 if n1 % 2 == 0 else 0.0)
+                want = ms - ((P[n1 // 2] / (fs_eff * n1)) * fs_eff / n1 if (n1 % 2 == 0 and not nyq) else 0.0)
                 if not close(tot, want, ms):
                     D.append({"op": "one-sided total vs theorem onesided_sum", "input": inp, "impl": tot, "model": want})
-                elif res is not None and n1 % 2 == 0 and P[n1 // 2] > 1e-9:
-                    res.count("even_n_onesided_drops_nyquist(recorded)")
+                elif res is not None and n1 % 2 == 0 and not nyq and P[n1 // 2] > 1e-9:
+                    res.count("even_n_onesided_drops_nyquist(recorded): one-sided total power = mean square - Nyquist term")
     return V, D
 
 
@@ -411,8 +428,8 @@ def check_split(S, ep, L, st, ov, mline, decimal=False):
     return V, D, False
 
 
-def check_mean(nap, c, mline, res=None):
-    V, D = [], []
+def check_mean(nap, c, mline, res=None, closed=()):
+    V, D, B = [], [], []      # violations, model disagreements, statement mismatches on non-uniform segments (correspondence only)
     ts, cols, ep, L, st, ov, full, unit = c["ts"], c["cols"], c["ep"], c["L"], c["st"], c["ov"], c["full"], c["unit"]
     inp = {k: c[k] for k in ("ts", "cols", "ep", "L", "st", "ov", "fs", "full", "unit", "support")}
     sig = mk_sig(nap, ts, cols, c["support"])
@@ -427,11 +444,13 @@ def check_mean(nap, c, mline, res=None):
         out = nap.compute_mean_power_spectral_density(sig, isz, overlap=float(ov), full_range=full, time_unit=unit, **kw)
     except Exception as ex:
         out = None
+        if res is not None and not closed:
+            res.count("mean:no_estimate_raised=" + type(ex).__name__)
     plan = None if mline == "none" else mline.split("|")
     for ci, col in enumerate(cols):
-        exp = oracle_mean_psd(ts, col, ep, L, st, fs_eff, full)
-        key = {"op": "compute_mean_power_spectral_density", "full_range": full}
-        if ci == 0:
+        exp = oracle_mean_psd(ts, col, ep, L, st, fs_eff, full, closed)
+        key = {"op": "compute_mean_power_spectral_density", "full_range": full, "lattice": c.get("lattice", "dyadic")}
+        if ci == 0 and not closed:
             if (exp is None) != (plan is None):
                 D.append({"op": "mean_plan model vs statement (existence)", "input": inp, "model": mline, "expected": None if exp is None else exp["N"]})
             elif exp is not None:
@@ -451,10 +470,12 @@ def check_mean(nap, c, mline, res=None):
             if (exp is None) != (out is None):
                 rec = {"key": dict(key, part="existence"), "what": "estimate %s although %s" % ("raised" if out is None else "returned", "segments with samples exist" if exp else "no segment fits / a segment is empty"),
                        "input": inp, "impl": None if out is None else len(out), "expected": None if exp is None else exp["N"]}
-                (V if (exp is None or exp["uniform"]) else D).append(rec)
+                (V if (exp is None or exp["uniform"]) else B).append(rec)
             continue
-        bucket = V if exp["uniform"] else D
+        bucket = V if exp["uniform"] else B
         rows = exp["rows"]
+        if (not full) and exp["N"] % 2 == 0 and len(out) == len(rows) + 1:      # one-sided form keeping the Nyquist bin at +fs/2, not doubled
+            rows = rows + [(exp["N"] // 2, fs_eff / 2, exp["nyquist"])]
         key = dict(key, regime="fs/(2n)<=1e-6" if fs_eff / (2 * exp["N"]) <= 1.0000001e-6 else "fs/(2n)>1e-6")
         if len(out) != len(rows):
             bucket.append({"key": dict(key, part="rows"), "op": "mean_psd", "what": "mean PSD has %d rows, expected %d (N=%d)" % (len(out), len(rows), exp["N"]), "input": inp,
@@ -471,7 +492,7 @@ def check_mean(nap, c, mline, res=None):
         if not all(close(v, r[2], sc) for v, r in zip(vals, rows)):
             bucket.append({"key": dict(key, part="values"), "op": "mean_psd", "what": "values are not the average of the Hamming-windowed periodograms of the segments%s"
                            % ("" if full else " (one-sided: doubled on 0 < f < Nyquist)"), "input": inp, "impl": vals.tolist(), "expected": [r[2] for r in rows]})
-    return V, D
+    return V, D, B
 
 
 def mean_cases(tier, seed):
@@ -534,8 +555,97 @@ def low_rate_mean_cases():
              "support": (0, 12 * SP), "ep_given": True, "irregular": False} for full in (False, True)]
 
 
+def mean_cases_decimal(tier, seed):
+    """the PUBLIC mean PSD on decimal sampling (0.1 s, 1 ms, 4 ms, 1/30000 s rounded to ns) with overlaps that are not dyadic fractions and interval
+    sizes that are not multiples of the sampling step; epochs start on or between samples. Exact on ticks (the step (1-overlap)*L is a
+    whole number of ns); only a segment ending exactly on the epoch end is decided by float rounding (float_ambiguous)."""
+    rng = random.Random(seed * 31 + 11)
+    cases = []
+    want = 450 if tier == "quick" else 4500
+    while len(cases) < want:
+        dt = rng.choice([10 ** 8, 10 ** 6, 4 * 10 ** 6, 33333])
+        n = rng.randint(12, 90)
+        t0 = rng.choice([0, 0, 5 * dt, 1234 * dt])
+        ts = [t0 + k * dt for k in range(n)]
+        a, b = rng.choice([(0, 1), (1, 10), (3, 10), (7, 10), (9, 10), (1, 5), (2, 5), (1, 4), (1, 2), (3, 4), (1, 3), (2, 3), (19, 20)])
+        L = rng.choice([3, 4, 5, 8, 10, 15]) * dt + rng.choice([0, 0, dt // 2, dt // 4, 1])
+        if (L * (b - a)) % b:
+            L -= L % b
+        st = L * (b - a) // b
+        if st <= 0 or L <= 0:
+            continue
+        m = rng.randint(1, 2)
+        cuts = sorted(rng.sample(range(0, 2 * n + 2), 2 * m))
+        half = rng.choice([0, dt // 2, dt // 2, 1])
+        ep = [(t0 + cuts[2 * i] * dt // 2 - half, t0 + cuts[2 * i + 1] * dt // 2 + rng.choice([0, half, dt // 3])) for i in range(m)]
+        if rng.random() < 0.25:     # an epoch whose length is exactly L + j*st: the last segment ends on the epoch end
+            s0 = ep[0][0]
+            ep = [(s0, s0 + L + rng.randint(0, 3) * st)] + [iv for iv in ep[1:] if iv[0] > s0 + L + 3 * st + dt]
+        if not G.canonical(ep):
+            continue
+        irregular = rng.random() < 0.15
+        if irregular:
+            ts = [t for t in ts if rng.random() < 0.85] or ts[:2]
+        i = len(cases)
+        ncol = 1 if i % 4 else 2
+        cols = [[rng.randint(-9, 9) for _ in ts] for _ in range(ncol)]
+        lo, hi = min(ts[0], ep[0][0]), max(ts[-1], ep[-1][1])
+        ep_given = rng.random() < 0.8
+        if not ep_given:
+            ep = ep[:1]
+            ts2 = [t for t in ts if ep[0][0] <= t <= ep[0][1]]
+            if len(ts2) < 2:
+                continue
+            cols = [[v for t, v in zip(ts, col) if ep[0][0] <= t <= ep[0][1]] for col in cols]
+            ts = ts2
+        cases.append({"ts": ts, "cols": cols, "ep": ep, "L": L, "st": st, "ov": a / b, "fs": rng.choice([None, 1e9 / dt, 1000.0]), "full": bool(i % 2), "unit": ("s", "ms", "us")[i % 3],
+                      "support": ep[0] if not ep_given else (lo - dt, hi + dt), "ep_given": ep_given, "irregular": irregular, "lattice": "decimal"})
+    return cases
+
+
+def run_defaults_explicit(nap, res):
+    """fs=None, ep=None, n=None are the documented defaults: passing them explicitly must give the result of the plain call"""
+    ts = [2 * U * j for j in range(8)]
+    sig = mk_sig(nap, ts, [[3, 1, 4, 1, 5, 9, 2, 6]], None)
+    calls = [("compute_fft", lambda **kw: nap.compute_fft(sig, full_range=True, **kw), ("fs", "ep", "n")),
+             ("compute_power_spectral_density", lambda **kw: nap.compute_power_spectral_density(sig, full_range=True, **kw), ("fs", "ep", "n")),
+             ("compute_mean_power_spectral_density", lambda **kw: nap.compute_mean_power_spectral_density(sig, 8 * U / 1e9, full_range=True, **kw), ("fs", "ep"))]
+    for op, f, params in calls:
+        ref = f()
+        for prm in params:
+            res.evaluations += 1
+            res.count("probe:explicit_default_none")
+            inp = {"probe": "explicit_none", "op": op, "param": prm, "ts": ts}
+            try:
+                got = f(**{prm: None})
+            except Exception as ex:
+                res.violations.append({"key": {"op": op, "part": "raises", "explicit_none": prm, "exception": type(ex).__name__},
+                                       "what": "%s(..., %s=None) raised %s: %s although None is the documented default of `%s`" % (op, prm, type(ex).__name__, str(ex)[:90], prm),
+                                       "input": inp, "impl": repr(ex)[:200], "expected": "the result of the plain call"})
+                continue
+            if not (np.array_equal(got.index.values, ref.index.values) and np.array_equal(got.values, ref.values)):
+                res.violations.append({"key": {"op": op, "part": "values", "explicit_none": prm}, "what": "result differs from the plain call", "input": inp,
+                                       "impl": got.values.tolist(), "expected": ref.values.tolist()})
+
+
+def run_many_epochs_single(nap, res):
+    """compute_fft / compute_power_spectral_density are defined on ONE epoch (the statement: 'the samples inside the epoch'); what they do
+    with several is recorded in the evidence (today: ValueError), not judged"""
+    ts = [2 * U * j for j in range(8)]
+    sig = mk_sig(nap, ts, [[3, 1, 4, 1, 5, 9, 2, 6]], None)
+    ep = nap.IntervalSet(G.arr([0, 10 * U]), G.arr([5 * U, 14 * U]))
+    for op, f in (("compute_fft", nap.compute_fft), ("compute_power_spectral_density", nap.compute_power_spectral_density)):
+        res.evaluations += 1
+        try:
+            out = f(sig, ep=ep, full_range=True)
+        except Exception as ex:
+            res.count("single:many_epochs_rejected=" + type(ex).__name__)
+            continue
+        res.count("single:many_epochs_accepted(%d rows; recorded, the statement speaks of one epoch)" % len(out))
+
+
 def run_mean(nap, S, res, tier, seed):
-    cases = mean_cases(tier, seed) + low_rate_mean_cases()
+    cases = mean_cases(tier, seed) + low_rate_mean_cases() + mean_cases_decimal(tier, seed)
     lines = []
     for c in cases:
         lines.append("split\t%s\t%d\t%d" % (C.fmt_iset(c["ep"]), c["L"], c["st"]))
@@ -551,16 +661,37 @@ def run_mean(nap, S, res, tier, seed):
         res.count("mean:epochs=%d" % len(c["ep"]))
         if any((e - s - c["L"]) % c["st"] == 0 and e - s - c["L"] >= 0 for s, e in c["ep"]):
             res.count("mean:segment_end_on_epoch_end")
+        dec = c.get("lattice") == "decimal"
+        on_end = any((e - s - c["L"]) % c["st"] == 0 and e - s - c["L"] >= 0 for s, e in c["ep"])
+        if dec:
+            res.count("mean:decimal_lattice(public API)")
+            res.count("mean:decimal:overlap=%.4g" % c["ov"])
+            if c["L"] % (c["ts"][1] - c["ts"][0]):
+                res.count("mean:decimal:interval_size_not_multiple_of_step")
         sk = (tuple(c["ep"]), c["L"], c["st"])
         if sk not in seen:
             seen.add(sk)
-            V, D, amb = check_split(S, c["ep"], c["L"], c["st"], c["ov"], mo[2 * i])
+            V, D, amb = check_split(S, c["ep"], c["L"], c["st"], c["ov"], mo[2 * i], decimal=dec)
             res.evaluations += 1
             res.violations.extend(V)
             res.disagreements.extend(D)
-        V, D = check_mean(nap, c, mo[2 * i + 1], res)
+        V, D, B = check_mean(nap, c, mo[2 * i + 1], res)
+        if (V or B) and dec and on_end:
+            # decimal lattice and a segment ending exactly on an epoch end: `t + interval_size < end` is decided by rounding, epoch by epoch;
+            # the result must then be the estimate WITH that segment in some of those epochs
+            hit = [k for k, (s_, e_) in enumerate(c["ep"]) if (e_ - s_ - c["L"]) % c["st"] == 0 and e_ - s_ - c["L"] >= 0]
+            for r_ in range(1, len(hit) + 1):
+                for sub in itertools.combinations(hit, r_):
+                    V2, _, B2 = check_mean(nap, c, mo[2 * i + 1], res, closed=sub)
+                    if not V2 and not B2:
+                        V, B = [], []
+                        break
+                if not V and not B:
+                    res.float_ambiguous += 1
+                    res.count("float_ambiguous:decimal segment end exactly on the epoch end")
+                    break
         res.violations.extend(V)
-        res.disagreements.extend(D)
+        res.disagreements.extend(D + B)
         if i % 499 == 0:
             res.sample({k_: c[k_] for k_ in ("ep", "L", "st", "ov", "fs", "full", "unit")} | {"n_samples": len(c["ts"]), "segments": len(segs)})
 
@@ -596,8 +727,11 @@ def run(res, tier, seed):
                 "time support, ep = None or EVERY window with endpoints on/between samples that keeps >= 1 sample, n in {None, 1, len-1, len, len+1, len+3} (even and odd), "
                 "fs in {inferred, 256, 1000, 7.5}, full/one-sided, norm on/off [complete product in thorough, seeded subsample in quick]; oracle = direct O(n^2) DFT of the samples inside the epoch, "
                 "sorted fftfreq, Parseval, doubling rule. PUBLIC compute_mean_power_spectral_density + kernel _overlap_split: every single epoch and random epoch pairs on a dyadic lattice x "
-                "interval_size in {1,2,3}*2^-7 s x overlap in {0,.25,.5,.75} x sampling step x regular/irregular sampling x 3 time units x fs given/inferred x full/one-sided; oracle = independent "
-                "recomputation (segments strictly inside, Hamming formula, direct DFT, average). non-trivial = n >= 2 points / >= 2 segments; distinct = distinct full inputs")
+                "interval_size in {1,2,3}*2^-7 s x overlap in {0,.25,.5,.75} x sampling step x regular/irregular sampling x 3 time units x fs given/inferred x full/one-sided; "
+                "+ PUBLIC compute_mean_power_spectral_density on DECIMAL sampling (0.1 s, 1 ms, 4 ms, 33333 ns) with overlaps {0,.1,.2,.25,.3,1/3,.4,.5,2/3,.7,.75,.9,.95}, interval sizes that are not multiples of "
+                "the sampling step, 1-2 epochs starting on/between samples, ep given or the time support, forced segment ends on the epoch end; oracle = independent "
+                "recomputation (segments strictly inside, Hamming formula, direct DFT, average). + probes: fs=None / ep=None / n=None (the documented defaults) passed explicitly to the three functions. "
+                "non-trivial = n >= 2 points / >= 2 segments; distinct = distinct full inputs")
     # thorough enumerates the complete structural product (lengths, windows, n, fs, flags; epochs, L, overlap); the integer data values and the
     # irregular-sampling patterns are seeded random, so the space is not declared exhaustive
     res.exhaustive = False
@@ -606,6 +740,8 @@ def run(res, tier, seed):
     run_single(nap, res, low_rate_cases(), tag="low_rate")
     run_mean(nap, S, res, tier, seed)
     run_split_decimal(S, res, tier, seed)
+    run_defaults_explicit(nap, res)
+    run_many_epochs_single(nap, res)
 
 
 def search(res, seed):
@@ -620,7 +756,12 @@ def replay(payload):
     v = payload.get("violation") or (payload.get("disagreements") or [{}])[0]
     inp = v.get("input", {})
     print("input", inp)
-    if "norm" in inp:
+    if inp.get("probe") == "explicit_none":
+        r2 = C.Result()
+        run_defaults_explicit(nap, r2)
+        V = [x for x in r2.violations if x["key"]["op"] == inp["op"] and x["key"]["explicit_none"] == inp["param"]]
+        D = []
+    elif "norm" in inp:
         c = dict(inp)
         c["support"] = tuple(c["support"]) if c.get("support") else None
         lines = model_lines_single(c)
@@ -630,9 +771,10 @@ def replay(payload):
         c = dict(inp)
         c["ep"] = [tuple(x) for x in c["ep"]]
         c["support"] = tuple(c["support"]) if c.get("support") else None
-        c["ep_given"] = True
+        c["ep_given"] = c["support"] is None or tuple(c["support"]) != tuple(c["ep"][0]) or len(c["ep"]) > 1
         mo = C.run_model(["plan\t%s\t%s\t%d\t%d" % (C.fmt_ints(c["ts"]), C.fmt_iset(c["ep"]), c["L"], c["st"])], driver="driver_c19")
-        V, D = check_mean(nap, c, mo[0])
+        V, D, B = check_mean(nap, c, mo[0])
+        D = D + B
     else:
         ep = [tuple(x) for x in inp.get("ep", [])]
         mo = C.run_model(["split\t%s\t%d\t%d" % (C.fmt_iset(ep), inp["L"], inp["st"])], driver="driver_c19")
